@@ -24,7 +24,7 @@ class C12(Prop):
     def cfg(self, tier):
         big = tier == "thorough"
         return gen_ir.Cfg(unnamed=True, max_defs=7 if big else 6, max_children=4 if big else 3,
-                          max_width=3 if big else 2, share=True, late=True, top="always",
+                          max_width=3 if big else 2, share=True, late=True, dense=True, top="always",
                           top_modes=["standalone", "definition"], data=False)
 
     def strategy(self, tier):
